@@ -740,11 +740,116 @@ theorem clean_bare (d : Dev) (rx : RxEngine) (p : Path) (elem root : Val) :
   obtain ⟨v, _, rfl⟩ := hc
   simp [Clean, Op.cnt, devHit, uncomparablePair, neqFloatCase, bigMixed, isCmp]
 
-/-- Script.Match(v) ⇔ v is selected by the corresponding filter: the two routes give the same verdict on
-every element, for EVERY well-formed script (same single hypothesis about a bare path) -/
-theorem match_filter_current (rx : RxEngine) (t : Tm) (hwf : t.wf = true) (elem : Val)
+/-- WEAK form (per element, same root on both sides): on one element with one root the program `Script()` lays
+out and the program `Filter()` lays out give the same verdict. This is NOT yet the property's clause — it does
+not speak about `Get`'s result; `match_iff_in_filter` below does. -/
+theorem match_filter_current_weak (rx : RxEngine) (t : Tm) (hwf : t.wf = true) (elem : Val)
     (hdata : ∀ p, t = .path p → NoNothing (Spec.sel p elem elem)) :
     matchElem Dev.current rx (compile true t) elem elem = matchElem Dev.current rx (compile false t) elem elem := by
   rw [script_spec_current rx t hwf elem elem, filter_spec_current rx t hwf elem elem hdata]
+
+/-! ### Script.Match(v) ⇔ v is in the result of the corresponding filter
+
+`Script.Match(v)` binds `$` to `v` itself, `Expr.Get` binds `$` inside a filter to the document it was given;
+the clause is therefore about scripts without a `$` path (`rootFree`; the harness oracle has the same scope —
+with a `$` path the two are different questions by design). -/
+
+def rootFree : Tm → Bool
+  | .const _ => true
+  | .path p => !p.root
+  | .app1 _ a => rootFree a
+  | .app2 _ a b => rootFree a && rootFree b
+
+theorem sel_root_irrel (p : Path) (h : p.root = false) (e r1 r2 : Val) : Spec.sel p e r1 = Spec.sel p e r2 := by
+  simp [Spec.sel, h]
+
+theorem choices_root_irrel (e r1 r2 : Val) (t : Tm) : rootFree t = true → Spec.choices e r1 t = Spec.choices e r2 t := by
+  induction t with
+  | const v => intro _; rfl
+  | path p =>
+    intro h
+    have hp : p.root = false := by simpa [rootFree] using h
+    simp only [Spec.choices, Spec.candidates, sel_root_irrel p hp e r1 r2]
+  | app1 o a iha =>
+    intro h
+    simp only [Spec.choices, iha (by simpa [rootFree] using h)]
+  | app2 o a b iha ihb =>
+    intro h
+    simp only [rootFree, Bool.and_eq_true] at h
+    simp only [Spec.choices, iha h.1, ihb h.2]
+
+theorem matches_root_irrel (rx : RxEngine) (t : Tm) (h : rootFree t = true) (e r1 r2 : Val) :
+    Spec.matches rx t e r1 = Spec.matches rx t e r2 := by
+  have hn : rootFree (Spec.normalise t) = true := by
+    cases t <;> simp_all [Spec.normalise, rootFree]
+  simp only [Spec.matches, choices_root_irrel e r1 r2 _ hn]
+
+/-- the model of the filter fragment selects, in order, exactly the elements the specification matches -/
+theorem filterList_spec (rx : RxEngine) (t : Tm) (hwf : t.wf = true) (root : Val) (xs : List Val)
+    (hdata : ∀ v ∈ xs, ∀ p, t = .path p → NoNothing (Spec.sel p v root)) :
+    filterList Dev.current rx (compile false t) root xs = .ok (xs.filter fun v => Spec.matches rx t v root) := by
+  induction xs with
+  | nil => rfl
+  | cons v r ih =>
+    have ih' := ih (fun w hw => hdata w (List.mem_cons_of_mem _ hw))
+    simp only [filterList, ih', filter_spec_current rx t hwf v root (hdata v (by simp)), List.filter_cons]
+
+def isOkTrue : Except Fault Bool → Bool
+  | .ok true => true
+  | _ => false
+
+theorem isOkTrue_iff (x : Except Fault Bool) : isOkTrue x = true ↔ x = .ok true := by
+  cases x with
+  | error f => simp [isOkTrue]
+  | ok b => cases b <;> simp [isOkTrue]
+
+/-- THE CLAUSE: for every well-formed script without a `$` path and every list `xs`, `$[?script]` applied to
+`xs` (model of the filter fragment in `Get`, `$` = `xs`) returns, in order and with multiplicity, exactly the
+elements `v` of `xs` on which `Script.Match(v)` (`$` = `v`) is true; in particular `v` is in the result iff it
+is in `xs` and `Match(v)`. Only hypothesis besides well-formedness: for a bare-path script the selected data
+does not hold the `jp.Nothing` marker. -/
+theorem match_iff_in_filter (rx : RxEngine) (t : Tm) (hwf : t.wf = true) (hrf : rootFree t = true) (xs : List Val)
+    (hdata : ∀ v ∈ xs, ∀ p, t = .path p → NoNothing (Spec.sel p v v)) :
+    filterGet Dev.current rx (compile false t) (.arr xs) =
+        .ok (xs.filter fun v => isOkTrue (matchElem Dev.current rx (compile true t) v v)) ∧
+    ∀ res, filterGet Dev.current rx (compile false t) (.arr xs) = .ok res →
+      ∀ v, v ∈ res ↔ (v ∈ xs ∧ matchElem Dev.current rx (compile true t) v v = .ok true) := by
+  have hd : ∀ v ∈ xs, ∀ p, t = .path p → NoNothing (Spec.sel p v (.arr xs)) := by
+    intro v hv p hp
+    have hpr : p.root = false := by subst hp; simpa [rootFree] using hrf
+    rw [sel_root_irrel p hpr v (.arr xs) v]
+    exact hdata v hv p hp
+  have h1 : filterGet Dev.current rx (compile false t) (.arr xs) =
+      .ok (xs.filter fun v => isOkTrue (matchElem Dev.current rx (compile true t) v v)) := by
+    unfold filterGet
+    rw [filterList_spec rx t hwf (.arr xs) xs hd]
+    congr 1
+    apply List.filter_congr
+    intro v _
+    rw [script_spec_current rx t hwf v v, matches_root_irrel rx t hrf v (.arr xs) v]
+    cases Spec.matches rx t v v <;> rfl
+  refine ⟨h1, ?_⟩
+  intro res hres v
+  rw [h1] at hres
+  cases hres
+  simp only [List.mem_filter, isOkTrue_iff]
+
+/-- the property's wording on a one-element list: `Match(v)` ⇔ `v ∈ $[?script]([v])` -/
+theorem match_iff_in_filter_singleton (rx : RxEngine) (t : Tm) (hwf : t.wf = true) (hrf : rootFree t = true) (v : Val)
+    (hdata : ∀ p, t = .path p → NoNothing (Spec.sel p v v)) :
+    matchElem Dev.current rx (compile true t) v v = .ok true ↔
+      ∃ res, filterGet Dev.current rx (compile false t) (.arr [v]) = .ok res ∧ v ∈ res := by
+  obtain ⟨h1, h2⟩ := match_iff_in_filter rx t hwf hrf [v] (fun w hw p hp => by
+    have : w = v := by simpa using hw
+    subst this; exact hdata p hp)
+  constructor
+  · intro hm
+    exact ⟨_, h1, (h2 _ h1 v).2 ⟨by simp, hm⟩⟩
+  · rintro ⟨res, hres, hv⟩
+    exact ((h2 res hres v).1 hv).2
+
+/-- a non-trivial instance: `@.a > 1 && @.m[*] == 2` is well-formed and has no `$` path -/
+example : rootFree (Tm.app2 .and (.app2 .gt (.path ⟨false, [.child [97]]⟩) (.const (.int 1)))
+    (.app2 .eq (.path ⟨false, [.child [109], .wild]⟩) (.const (.int 2)))) = true := rfl
 
 end OjgVerif.C12
